@@ -673,3 +673,65 @@ def rebuild_sites(tree: Tree, module_prefixes: tuple[str, ...], carriers: dict[s
             why = expr_tainted(fn, rd, operand)
             sites.append({"fn": fn, "node": node, "name": name, "operand": operand, "carrier_via": why})
     return sites, {"producers": len(producers), "tainted_params": sorted(f"{a}({b})" for a, b in tainted_params), "rebuilder_calls": n_calls}
+
+
+# --------------------------------------------------------------------------- R-SAMETOPOLOGY
+def topology_mismatches(tree: Tree, module_prefixes: tuple[str, ...]) -> tuple[list[dict], int]:
+    """Calls `f(T, ..., x, ...)` of a repo function whose first parameter is named `topology`, where
+    an argument `x` was computed (reaching-definition closure) from ANOTHER topology value than T.
+
+    State ids, node ids and id sets only mean something relative to the topology they were read
+    from; combining ids of one topology with another topology object silently selects the wrong
+    (or no) states as soon as a reaction has more than one topology."""
+    out: list[dict] = []
+    n_calls = 0
+    # functions whose result depends on the final-state ids only, which all topologies of one
+    # reaction share (one line of reason per exemption)
+    topology_independent = {
+        "ampform.kinematics.lorentz::create_four_momentum_symbols",  # {i: p_i for i in topology.outgoing_edge_ids}
+    }
+
+    def first_param_is_topology(callee: str | None) -> bool:
+        f = tree.funcs.get(callee) if callee else None
+        if f is None:
+            return False
+        params = f.params[1:] if f.cls is not None and f.params[:1] in (["self"], ["cls"]) else f.params
+        return bool(params) and params[0] == "topology"
+
+    for q, fn in sorted(tree.funcs.items()):
+        if not q.startswith(module_prefixes) or fn.outer is not None:
+            continue
+        rd = RD(fn.node)
+
+        def ident(expr: ast.AST, scope_rd=rd):
+            """Identity of a topology-valued expression: text + reaching definitions of its names."""
+            names = [n for n in ast.walk(expr) if isinstance(n, ast.Name) and isinstance(n.ctx, ast.Load)]
+            defs = frozenset(id(d.node) for n in names for d in scope_rd.reaching(n))
+            return (re.sub(r"\s+", "", unparse(expr)), defs)
+
+        for node in walk_function(fn.node, nested=True):
+            if not (isinstance(node, ast.Call) and node.args):
+                continue
+            scope = tree.func_of(node) or fn
+            if not first_param_is_topology(tree.callee(node, scope)):
+                continue
+            n_calls += 1
+            t_id = ident(node.args[0])
+            for arg in [*node.args[1:], *[k.value for k in node.keywords]]:
+                seen_nodes = set()
+                exprs = [arg] + [d.value for d in rd.closure(rd.uses(arg)) if isinstance(d.value, ast.AST)]
+                for e in exprs:
+                    for sub in ast.walk(e):
+                        if id(sub) in seen_nodes:
+                            continue
+                        seen_nodes.add(id(sub))
+                        other = None
+                        if (isinstance(sub, ast.Call) and sub.args and sub is not node and first_param_is_topology(tree.callee(sub, scope))
+                                and tree.callee(sub, scope) not in topology_independent):
+                            other = sub.args[0]
+                        if other is None:
+                            continue
+                        o_id = ident(other)
+                        if o_id != t_id:
+                            out.append({"fn": fn, "call": node, "arg": arg, "topology": node.args[0], "other": other, "via": sub})
+    return out, n_calls
